@@ -338,6 +338,93 @@ func compoundOps(x int) func() int {
 	}
 }
 
+// re-entrant call sites of every arity: an argument expression runs the same call site again
+// before the outer call has collected its arguments.
+func first(a, b int) int { return a*3 + b }
+
+func r1x2(n int) (int, int) {
+	if n <= 0 {
+		return 1, 2
+	}
+	a, b := r1x2(first(r1x2(n-2)) % n)
+	return a + n, b * 2
+}
+
+func r2x2(n, a int) (int, int) {
+	if n <= 0 {
+		return a, -a
+	}
+	x, y := r2x2(n-1, first(r2x2(n-2, a+1)))
+	return x + n, y - 1
+}
+
+func r3x2(n, a, b int) (int, int) {
+	if n <= 0 {
+		return a - b, b
+	}
+	x, y := r3x2(n-1, first(r3x2(n-2, b, a)), b+n)
+	return x + 1, y + a
+}
+
+func r4x1(n, a, b, c int) int {
+	if n <= 0 {
+		return a*100 + b*10 + c
+	}
+	return r4x1(n-1, a+1, r4x1(n-2, b, a, c)%7, c+n) + 1
+}
+
+func r4x2(n, a, b, c int) (int, int) {
+	if n <= 0 {
+		return a - b, c + 1
+	}
+	x, y := r4x2(n-1, a+1, first(r4x2(n-2, b, a, c)), c+n)
+	return x + n, y - a
+}
+
+func r5x3(n, a, b, c, d int) (int, int, string) {
+	if n <= 0 {
+		return a + b, c - d, "z"
+	}
+	x, y, s := r5x3(n-1, a+1, first(r4x2(n-1, b, a, c)), c+n, second(r5x3(n-2, d, c, b, a)))
+	return x + n, y - a, s + "r"
+}
+
+func second(a, b int, s string) int { return b - a + len(s) }
+
+var r4x0acc int
+
+func r4x0(n, a, b, c int) {
+	if n <= 0 {
+		r4x0acc = r4x0acc*3 + a + b*5 + c*7
+		return
+	}
+	r4x0(n-1, a+1, r4x1(n-1, b, a, c)%5, c+n)
+	r4x0acc += n
+}
+
+func rv(n int, xs ...int) (int, int) {
+	if n <= 0 {
+		t := 0
+		for _, x := range xs {
+			t = t*2 + x
+		}
+		return t, len(xs)
+	}
+	return rv(n-1, n, first(rv(n-2, xs...)), 4, 5)
+}
+
+func reentrant(n int) {
+	a1, b1 := r1x2(n)
+	a2, b2 := r2x2(n, 3)
+	a3, b3 := r3x2(n, 2, 5)
+	a4, b4 := r4x2(n, 1, 2, 3)
+	a5, b5, s5 := r5x3(n, 1, 2, 3, 4)
+	r4x0acc = 0
+	r4x0(n, 1, 2, 3)
+	av, bv := rv(n, 1, 2)
+	hook.Ev("reentrant", n, a1, b1, a2, b2, a3, b3, r4x1(n, 1, 2, 3), a4, b4, a5, b5, s5, r4x0acc, av, bv)
+}
+
 func Main() {
 	gfuncs, gsetters, gptrs, gsptrs = nil, nil, nil, nil
 	gfptrs, gbptrs = nil, nil
@@ -349,7 +436,9 @@ func Main() {
 	}
 	steps := 6 + hook.Choose(14)
 	for s := 0; s < steps; s++ {
-		switch hook.Choose(23) {
+		switch hook.Choose(24) {
+		case 23:
+			reentrant(hook.Choose(7))
 		case 22:
 			gfuncs = append(gfuncs, compoundOps(hook.Choose(40)))
 		case 21:
